@@ -114,8 +114,12 @@ class Normaliser:
                 names.append(self.gen_of[t.id])
         if not names:
             names = ["dummy"]
+        assert len(set(names)) == len(names), "duplicate generator"
         self.names = names
-        R_, *G = ring(names, QQ)
+        # sympy parses generator *strings* (commas, brackets split!) -> use opaque safe names
+        safe = [f"g{i}" for i in range(len(names))]
+        R_, *G = ring(safe, QQ)
+        assert len(G) == len(names)
         self.R = R_
         self.G = dict(zip(names, G))
         self.idx = {n: i for i, n in enumerate(names)}
